@@ -337,7 +337,11 @@ func (P *Program) verify(fn *ssa.Function, timeoutMs int, par int, keepDir strin
 				}
 				all := vc2.obligs
 				vc2.obligs = again
-				vc2.discharge(3*timeoutMs, par, "")
+				abstractBudget := 3 * timeoutMs
+				if abstractBudget > 120000 {
+					abstractBudget = 120000 // thorough tier / slow functions: the over-approximated query either goes through quickly or not at all
+				}
+				vc2.discharge(abstractBudget, par, "")
 				vc2.obligs = all
 				for _, o := range again {
 					if o.Status == "unsat" {
